@@ -20,7 +20,24 @@ structure Abs (σ : Type) where
   evk : List Ev
   /-- the cursor was moved by the step function (`curIndex -= n`, schema extent) during this byte -/
   mv : Bool := false
+  /-- progress part (Proofs/Progress.lean).  At the start of a byte: how far the cursor is behind the
+      furthest position a step function has been run at (the high-water mark) -/
+  lag : Nat := 0
+  /-- the high-water mark has advanced since the last rewind (a rewind is only accepted then) -/
+  fresh : Bool := true
+  /-- during a byte: by how much the step function has rewound the cursor (`curIndex -= n`) -/
+  rew : Nat := 0
+  /-- during a byte: the cursor jumped forward over a schema / enum body -/
+  jmp : Bool := false
+  /-- during a byte: number of lexeme events queued -/
+  nf : Nat := 0
   deriving DecidableEq, Repr
+
+/-- the largest rewind of the cursor the progress analysis accepts -/
+def rewCap : Nat := 2
+
+/-- the largest number of lexeme events one byte may queue -/
+def findCap : Nat := 4
 
 def mismatchMsg : String := "Ending lexeme event does not match beginning event"
 
@@ -65,9 +82,15 @@ def absProg {σ} (c : UInt8) : Prog σ → Abs σ → Option (List (ATail σ))
   | .found e _ k, a =>
     match applyK a.evk e with
     | none => none
-    | some evk' => absProg c k { a with evk := evk' }
-  | .curSub _ k, a => absProg c k { a with mv := true }
-  | .readLen _ k, a => absProg c k { a with mv := true }
+    | some evk' => if a.nf < findCap then absProg c k { a with evk := evk', nf := a.nf + 1 } else none
+  | .curSub n k, a =>
+    -- a rewind is accepted only at the high-water mark, after it has advanced since the last rewind,
+    -- once per byte, by 1..rewCap (otherwise termination of the byte loop is not shown)
+    if a.lag == 0 && a.fresh && a.rew == 0 && !a.jmp && 1 ≤ n && n ≤ rewCap then
+      absProg c k { a with mv := true, rew := n }
+    else none
+  | .readLen _ k, a =>
+    if a.lag == 0 && a.rew == 0 then absProg c k { a with mv := true, jmp := true } else none
   | .ite cnd t e, a =>
     match simpleCond c cnd with
     | some true => absProg c t a
@@ -104,8 +127,15 @@ def absStepFuel {σ} (prog : σ → Prog σ) (c : UInt8) : Nat → σ → Abs σ
         | .call t' a' => absStepFuel prog c n t' a'
         | .redispatch a' => absStepFuel prog c n a'.st a')
 
-/-- forget the cursor flag (states are stored with `mv = false`) -/
-def Abs.norm {σ} (a : Abs σ) : Abs σ := { a with mv := false }
+/-- reset what is recorded during one byte (states are stored in this form) -/
+def Abs.norm {σ} (a : Abs σ) : Abs σ := { a with mv := false, rew := 0, jmp := false, nf := 0 }
+
+/-- the abstract state at the start of the next byte: the cursor has advanced by one from where the
+    step function left it -/
+def Abs.next {σ} (a : Abs σ) : Abs σ :=
+  { a with mv := false, rew := 0, jmp := false, nf := 0,
+           lag := if a.rew != 0 then a.rew - 1 else if a.jmp then 0 else a.lag - 1,
+           fresh := if a.rew != 0 then false else if a.jmp then true else a.lag == 0 }
 
 /-- one byte, from the abstract state's own step function -/
 def absByte {σ} (prog : σ → Prog σ) (a : Abs σ) (c : UInt8) : Option (List (Abs σ)) :=
@@ -115,41 +145,28 @@ def succsAll {σ} (prog : σ → Prog σ) (inputs : List UInt8) (a : Abs σ) : O
   joinAll (inputs.map (absByte prog a))
 
 /-- membership in a reach set given per step function (`mv` is not part of the stored states) -/
-def memR {σ} [DecidableEq σ] (reachAt : σ → List (List σ × List Ev)) (a : Abs σ) : Bool :=
-  (reachAt a.st).contains (a.stk, a.evk)
+def memR {σ} [DecidableEq σ] (reachAt : σ → List (List σ × List Ev × Nat × Bool)) (a : Abs σ) : Bool :=
+  (reachAt a.st).contains (a.stk, a.evk, a.lag, a.fresh)
 
 /-- one abstract state is fine: every input byte is safe and leads into the set; the end-of-file
     pseudo byte is safe, and it is the last thing a scanner sees unless the step function moved the
     cursor (stateAnnotationSign2 rewinds by two even at the end of file), in which case the
     successor must be in the set like any other -/
 def okAt {σ} [DecidableEq σ] (prog : σ → Prog σ) (inputs : List UInt8)
-    (reachAt : σ → List (List σ × List Ev)) (a : Abs σ) : Bool :=
+    (reachAt : σ → List (List σ × List Ev × Nat × Bool)) (a : Abs σ) : Bool :=
   (match absByte prog a 0 with
    | none => false
-   | some outs => outs.all fun o => !o.mv || memR reachAt o) &&
+   | some outs => outs.all fun o => !o.mv || memR reachAt o.next) &&
+  decide (a.lag ≤ rewCap) &&
   inputs.all fun c =>
     match absByte prog a c with
     | none => false
-    | some outs => outs.all (memR reachAt)
+    | some outs => outs.all fun o => memR reachAt o.next
 
 /-- the set is closed at step function `st` -/
 def closedAt {σ} [DecidableEq σ] (prog : σ → Prog σ) (inputs : List UInt8)
-    (reachAt : σ → List (List σ × List Ev)) (st : σ) : Bool :=
-  (reachAt st).all fun p => okAt prog inputs reachAt ⟨st, p.1, p.2, false⟩
-
-/-- breadth-first closure (fuel-bounded), used to *produce* the set; `.error a` = the abstract
-    state where a stack fault cannot be excluded -/
-def bfs {σ} [DecidableEq σ] (prog : σ → Prog σ) (inputs : List UInt8) :
-    Nat → List (Abs σ) → List (Abs σ) → Except (Option (Abs σ)) (List (Abs σ))
-  | 0, _, _ => .error none
-  | _ + 1, [], seen => .ok seen
-  | n + 1, a :: frontier, seen =>
-    match absByte prog a 0, succsAll prog inputs a with
-    | some eo, some l =>
-      let cand := (eo.filter (·.mv)) ++ l
-      let fresh := ((cand.map Abs.norm).filter (fun x => !seen.contains x)).eraseDups
-      bfs prog inputs n (frontier ++ fresh) (seen ++ fresh)
-    | _, _ => .error (some a)
+    (reachAt : σ → List (List σ × List Ev × Nat × Bool)) (st : σ) : Bool :=
+  (reachAt st).all fun p => okAt prog inputs reachAt { st := st, stk := p.1, evk := p.2.1, lag := p.2.2.1, fresh := p.2.2.2 }
 
 /-! bytes that occur in byte tests of a program -/
 def condBytes : Cond → List Nat
@@ -182,8 +199,34 @@ def StackFault : Fault → Prop
 def Conc {σ} (a : Abs σ) (s : Sc σ) : Prop :=
   s.step = a.st ∧ (∃ base, s.stack = a.stk ++ base) ∧ applyKs (kindsOf s.evs) (kindsOf s.finds) = some a.evk
 
+/-- what the scanner looked like when the current byte began: cursor, number of queued events, and
+    the progress part of the abstract state -/
+structure Snap where
+  cur : Int
+  nfinds : Nat
+  lag : Nat
+  fresh : Bool
+
+/-- the cursor and the event queue during a byte that began at `c0`: rewound by exactly `rew`, or
+    jumped forward; `nf` more events queued; a rewind or a jump happened only where the abstract
+    interpreter accepts one -/
+structure CurRelF (c0 : Snap) (ajmp : Bool) (arew anf alag : Nat) (afresh : Bool) (cur : Int) (nfinds : Nat) : Prop where
+  noJmp : ajmp = false → cur + arew = c0.cur
+  jmp : ajmp = true → c0.cur ≤ cur ∧ arew = 0
+  nf : nfinds = c0.nfinds + anf
+  nfCap : anf ≤ findCap
+  lag : alag = c0.lag
+  fresh : afresh = c0.fresh
+  rewOk : arew ≠ 0 → c0.lag = 0 ∧ c0.fresh = true ∧ arew ≤ rewCap
+  jmpOk : ajmp = true → c0.lag = 0
+
+/-- (stated over the fields it depends on, so that it is preserved definitionally by updates of the others) -/
+abbrev CurRel {σ} (c0 : Snap) (a : Abs σ) (s : Sc σ) : Prop :=
+  CurRelF c0 a.jmp a.rew a.nf a.lag a.fresh s.cur s.finds.length
+
 /-- concretisation that also tracks the cursor: unmoved means still at `c0` -/
-def ConcC {σ} (c0 : Int) (a : Abs σ) (s : Sc σ) : Prop := Conc a s ∧ (a.mv = false → s.cur = c0)
+def ConcC {σ} (c0 : Snap) (a : Abs σ) (s : Sc σ) : Prop :=
+  Conc a s ∧ (a.mv = false → s.cur = c0.cur) ∧ CurRel c0 a s
 
 theorem applyKs_append (stk : List Ev) (l : List Ev) (e : Ev) :
     applyKs stk (l ++ [e]) = (applyKs stk l).bind (fun k => applyK k e) := by
@@ -220,14 +263,20 @@ theorem joinAll_mem {α} (l : List (Option (List α))) (r : List α) (h : joinAl
         · obtain ⟨x', hx', hsub⟩ := ih y hr o' ho'
           exact ⟨x', hx', fun z hz => List.mem_append_right _ (hsub z hz)⟩
 
+/-- at the start of a byte -/
+theorem concC_start {σ} (a : Abs σ) (s : Sc σ) (hc : Conc a s) :
+    ConcC ⟨s.cur, s.finds.length, a.lag, a.fresh⟩ a.norm s :=
+  ⟨hc, fun _ => rfl, ⟨fun _ => by simp [Abs.norm], fun h => by simp [Abs.norm] at h, by simp [Abs.norm], by simp [Abs.norm], rfl, rfl,
+    fun h => by simp [Abs.norm] at h, fun h => by simp [Abs.norm] at h⟩⟩
+
 /-- what the real body does, in terms of the abstract tails -/
-def TailOk {σ} (c0 : Int) (tails : List (ATail σ)) : Tail σ → Prop
+def TailOk {σ} (c0 : Snap) (tails : List (ATail σ)) : Tail σ → Prop
   | .done s' => ∃ a', ATail.done a' ∈ tails ∧ ConcC c0 a' s'
   | .call t s' => ∃ a', ATail.call t a' ∈ tails ∧ ConcC c0 a' s'
   | .redispatch s' => ∃ a', ATail.redispatch a' ∈ tails ∧ ConcC c0 a' s'
   | .fault f => ¬ StackFault f
 
-theorem tailOk_mono {σ} (c0 : Int) (x y : List (ATail σ)) (t : Tail σ) (h : TailOk c0 x t) (hs : ∀ z ∈ x, z ∈ y) : TailOk c0 y t := by
+theorem tailOk_mono {σ} (c0 : Snap) (x y : List (ATail σ)) (t : Tail σ) (h : TailOk c0 x t) (hs : ∀ z ∈ x, z ∈ y) : TailOk c0 y t := by
   cases t with
   | done s' => obtain ⟨a', ha, hc⟩ := h; exact ⟨a', hs _ ha, hc⟩
   | call t' s' => obtain ⟨a', ha, hc⟩ := h; exact ⟨a', hs _ ha, hc⟩
@@ -237,7 +286,7 @@ theorem tailOk_mono {σ} (c0 : Int) (x y : List (ATail σ)) (t : Tail σ) (h : T
 theorem ucErr_not_stack {σ} (env : Env) (s : Sc σ) (w e : String) : ¬ StackFault (ucErr env s w e) := by
   unfold ucErr; split <;> simp [StackFault]
 
-theorem runProg_sound {σ} (env : Env) (c : UInt8) (c0 : Int) (p : Prog σ) (a : Abs σ) (s : Sc σ) (tails : List (ATail σ))
+theorem runProg_sound {σ} (env : Env) (c : UInt8) (c0 : Snap) (p : Prog σ) (a : Abs σ) (s : Sc σ) (tails : List (ATail σ))
     (hc : ConcC c0 a s) (h : absProg c p a = some tails) : TailOk c0 tails (runProg env c p s) := by
   induction p generalizing a s tails with
   | setStep t k ih =>
@@ -274,30 +323,79 @@ theorem runProg_sound {σ} (env : Env) (c : UInt8) (c0 : Int) (p : Prog σ) (a :
     | none => simp [hk] at h
     | some evk' =>
       simp only [hk] at h
-      simp only [runProg]
-      refine ih { a with evk := evk' } _ _ ⟨⟨hc.1.1, hc.1.2.1, ?_⟩, hc.2⟩ h
-      simp only [kindsOf, List.map_append, List.map_cons, List.map_nil]
-      have := hc.1.2.2
-      simp only [kindsOf] at this
-      rw [applyKs_append, this]
-      exact hk
+      by_cases hnf : a.nf < findCap
+      · simp only [hnf, if_true] at h
+        simp only [runProg]
+        have hr := hc.2.2
+        refine ih { a with evk := evk', nf := a.nf + 1 } _ _
+          ⟨⟨hc.1.1, hc.1.2.1, ?_⟩, hc.2.1, ⟨hr.noJmp, hr.jmp, ?_, by simp only; omega, hr.lag, hr.fresh, hr.rewOk, hr.jmpOk⟩⟩ h
+        · simp only [kindsOf, List.map_append, List.map_cons, List.map_nil]
+          have := hc.1.2.2
+          simp only [kindsOf] at this
+          rw [applyKs_append, this]
+          exact hk
+        · have := hr.nf
+          simp only [List.length_append, List.length_cons, List.length_nil]
+          omega
+      · simp [hnf] at h
   | curSub n k ih =>
     simp only [absProg] at h
-    simp only [runProg]
-    split
-    · simp [TailOk, StackFault]
-    · exact ih { a with mv := true } _ _ ⟨⟨hc.1.1, hc.1.2.1, hc.1.2.2⟩, by simp⟩ h
+    by_cases hg : (a.lag == 0 && a.fresh && a.rew == 0 && !a.jmp && decide (1 ≤ n) && decide (n ≤ rewCap)) = true
+    · simp only [hg, if_true] at h
+      simp only [Bool.and_eq_true, beq_iff_eq, Bool.not_eq_true', decide_eq_true_eq] at hg
+      obtain ⟨⟨⟨⟨⟨hlag, hfresh⟩, hrew⟩, hjmp⟩, _⟩, hcap⟩ := hg
+      have hr := hc.2.2
+      simp only [runProg]
+      split
+      · simp [TailOk, StackFault]
+      · refine ih { a with mv := true, rew := n } _ _ ⟨⟨hc.1.1, hc.1.2.1, hc.1.2.2⟩, by simp,
+          ⟨?_, ?_, hr.nf, hr.nfCap, hr.lag, hr.fresh, ?_, ?_⟩⟩ h
+        · intro _
+          have := hr.noJmp hjmp
+          simp only [hrew] at this
+          simp only
+          omega
+        · intro hj
+          simp only [hjmp] at hj
+          exact absurd hj (by simp)
+        · intro _
+          exact ⟨by rw [← hr.lag]; exact hlag, by rw [← hr.fresh]; exact hfresh, hcap⟩
+        · intro hj
+          simp only [hjmp] at hj
+          exact absurd hj (by simp)
+    · simp [hg] at h
   | readLen kind k ih =>
     simp only [absProg] at h
-    simp only [runProg]
-    split
-    · simp [TailOk, StackFault]
-    · split
+    by_cases hg : (a.lag == 0 && a.rew == 0) = true
+    · simp only [hg, if_true] at h
+      simp only [Bool.and_eq_true, beq_iff_eq] at hg
+      obtain ⟨hlag, hrew⟩ := hg
+      have hr := hc.2.2
+      have hge : c0.cur ≤ s.cur := by
+        by_cases hj : a.jmp = true
+        · exact (hr.jmp hj).1
+        · have := hr.noJmp (by simpa using hj)
+          omega
+      have hrel : ∀ s' : Sc σ, c0.cur ≤ s'.cur → s'.finds = s.finds →
+          CurRel c0 { a with mv := true, jmp := true } s' := by
+        intro s' hle hf
+        refine ⟨by simp, fun _ => ⟨hle, hrew⟩, by rw [hf]; exact hr.nf, hr.nfCap, hr.lag, hr.fresh, ?_, ?_⟩
+        · intro hne; exact absurd hrew hne
+        · intro _; rw [← hr.lag]; exact hlag
+      simp only [runProg]
+      split
       · simp [TailOk, StackFault]
-      · rename_i n _
-        by_cases hn : n > 0
-        · simp only [hn, if_true]; exact ih { a with mv := true } _ _ ⟨⟨hc.1.1, hc.1.2.1, hc.1.2.2⟩, by simp⟩ h
-        · simp only [hn, if_false]; exact ih { a with mv := true } _ _ ⟨⟨hc.1.1, hc.1.2.1, hc.1.2.2⟩, by simp⟩ h
+      · split
+        · simp [TailOk, StackFault]
+        · rename_i n _
+          by_cases hn : n > 0
+          · simp only [hn, if_true]
+            refine ih { a with mv := true, jmp := true } _ _ ⟨⟨hc.1.1, hc.1.2.1, hc.1.2.2⟩, by simp, hrel _ ?_ rfl⟩ h
+            simp only
+            omega
+          · simp only [hn, if_false]
+            exact ih { a with mv := true, jmp := true } _ _ ⟨⟨hc.1.1, hc.1.2.1, hc.1.2.2⟩, by simp, hrel _ hge rfl⟩ h
+    · simp [hg] at h
   | ite cnd t e iht ihe =>
     simp only [absProg] at h
     simp only [runProg]
@@ -334,7 +432,7 @@ theorem runProg_sound {σ} (env : Env) (c : UInt8) (c0 : Int) (p : Prog σ) (a :
       simpa using hm
 
 /-- the whole byte step, following tail calls -/
-theorem stepFuel_sound {σ} (env : Env) (prog : σ → Prog σ) (c : UInt8) (c0 : Int) (n : Nat) (st : σ) (a : Abs σ) (s : Sc σ)
+theorem stepFuel_sound {σ} (env : Env) (prog : σ → Prog σ) (c : UInt8) (c0 : Snap) (n : Nat) (st : σ) (a : Abs σ) (s : Sc σ)
     (outs : List (Abs σ)) (hc : ConcC c0 a s) (h : absStepFuel prog c n st a = some outs) :
     match stepFuel env prog c n st s with
     | .ok s' => ∃ a' ∈ outs, ConcC c0 a' s'
@@ -413,9 +511,9 @@ theorem processEvent_sound {σ} (a : Abs σ) (s : Sc σ) (ev : Ev × Int) (rest 
       exact ⟨_, _, rfl, ⟨hstep, hstack, by simpa [kindsOf] using hk⟩, rfl, rfl⟩
 
 theorem drain_sound {σ} (a : Abs σ) (n : Nat) (s : Sc σ) (hn : n ≤ s.finds.length) (hc : Conc a s) :
-    ∃ lex s', drain n s = .ok (lex, s') ∧ Conc a s' ∧ s'.cur = s.cur := by
+    ∃ lex s', drain n s = .ok (lex, s') ∧ Conc a s' ∧ s'.cur = s.cur ∧ s'.finds.length ≤ s.finds.length := by
   induction n generalizing s with
-  | zero => exact ⟨none, s, rfl, hc, rfl⟩
+  | zero => exact ⟨none, s, rfl, hc, rfl, Nat.le_refl _⟩
   | succ n ih =>
     cases hfs : s.finds with
     | nil => simp [hfs] at hn
@@ -425,43 +523,46 @@ theorem drain_sound {σ} (a : Abs σ) (n : Nat) (s : Sc σ) (hn : n ≤ s.finds.
       cases lex with
       | none =>
         have hn' : n ≤ s'.finds.length := by rw [hrest]; simp [hfs] at hn; omega
-        obtain ⟨lex2, s2, h2, hc2, hcur2⟩ := ih s' hn' hc'
-        exact ⟨lex2, s2, h2, hc2, by rw [hcur2, hcur]⟩
+        obtain ⟨lex2, s2, h2, hc2, hcur2, hlen2⟩ := ih s' hn' hc'
+        exact ⟨lex2, s2, h2, hc2, by rw [hcur2, hcur], by rw [hrest] at hlen2; simp only [hfs, List.length_cons]; omega⟩
       | some l =>
-        refine ⟨some l, _, rfl, ?_, ?_⟩
+        refine ⟨some l, _, rfl, ?_, ?_, ?_⟩
         · obtain ⟨h1, h2, h3⟩ := hc'
           cases l.ty <;> exact ⟨h1, h2, h3⟩
         · cases l.ty <;> exact hcur
+        · have : s'.finds.length ≤ (ev :: rest).length := by rw [hrest]; simp
+          cases l.ty <;> exact this
 
 /-- what the closure check needs from the table and the input alphabet -/
 structure TableOk {σ} [DecidableEq σ] (prog : σ → Prog σ) (inputs : List UInt8)
-    (reachAt : σ → List (List σ × List Ev)) : Prop where
+    (reachAt : σ → List (List σ × List Ev × Nat × Bool)) : Prop where
   closed_ : ∀ st, closedAt prog inputs reachAt st = true
   /-- every non-zero byte behaves like one of the inputs in every step function -/
   rep : ∀ c : UInt8, c ≠ 0 → ∃ r ∈ inputs, ∀ st, progAgn c r (prog st) = true
 
 /-- the scanner state is covered by the reach set, or the file has been read to its end -/
-def Good {σ} [DecidableEq σ] (env : Env) (reachAt : σ → List (List σ × List Ev)) (s : Sc σ) : Prop :=
+def Good {σ} [DecidableEq σ] (env : Env) (reachAt : σ → List (List σ × List Ev × Nat × Bool)) (s : Sc σ) : Prop :=
   (∃ a, memR reachAt a = true ∧ Conc a s) ∨ (s.cur > env.size ∧ ∃ a, Conc a s)
 
-def ResOk {σ} [DecidableEq σ] (env : Env) (reachAt : σ → List (List σ × List Ev)) :
+def ResOk {σ} [DecidableEq σ] (env : Env) (reachAt : σ → List (List σ × List Ev × Nat × Bool)) :
     Except Fault (Option Lexeme × Sc σ) → Prop
   | .ok (_, s') => Good env reachAt s'
   | .error f => ¬ StackFault f
 
 theorem okAt_spec {σ} [DecidableEq σ] (prog : σ → Prog σ) (inputs : List UInt8)
-    (reachAt : σ → List (List σ × List Ev)) (a : Abs σ) (ht : ∀ st, closedAt prog inputs reachAt st = true)
+    (reachAt : σ → List (List σ × List Ev × Nat × Bool)) (a : Abs σ) (ht : ∀ st, closedAt prog inputs reachAt st = true)
     (ha : memR reachAt a = true) :
-    (∃ outs, absByte prog a 0 = some outs ∧ ∀ o ∈ outs, o.mv = false ∨ memR reachAt o = true) ∧
-    (∀ r ∈ inputs, ∃ outs, absByte prog a r = some outs ∧ ∀ o ∈ outs, memR reachAt o = true) := by
+    (∃ outs, absByte prog a 0 = some outs ∧ ∀ o ∈ outs, o.mv = false ∨ memR reachAt o.next = true) ∧
+    a.lag ≤ rewCap ∧
+    (∀ r ∈ inputs, ∃ outs, absByte prog a r = some outs ∧ ∀ o ∈ outs, memR reachAt o.next = true) := by
   have h := ht a.st
   simp only [closedAt, List.all_eq_true] at h
   simp only [memR, List.contains_iff_mem] at ha
   have hok := h _ ha
-  have hb : ∀ c, absByte prog ⟨a.st, a.stk, a.evk, false⟩ c = absByte prog a c := fun _ => rfl
-  simp only [okAt, Bool.and_eq_true, List.all_eq_true, hb] at hok
-  obtain ⟨h0, hin⟩ := hok
-  constructor
+  have hb : ∀ c, absByte prog { st := a.st, stk := a.stk, evk := a.evk, lag := a.lag, fresh := a.fresh } c = absByte prog a c := fun _ => rfl
+  simp only [okAt, Bool.and_eq_true, List.all_eq_true, hb, decide_eq_true_eq] at hok
+  obtain ⟨⟨h0, hlag⟩, hin⟩ := hok
+  refine ⟨?_, hlag, ?_⟩
   · cases hx : absByte prog a 0 with
     | none => simp [hx] at h0
     | some outs =>
@@ -479,7 +580,7 @@ theorem okAt_spec {σ} [DecidableEq σ] (prog : σ → Prog σ) (inputs : List U
 theorem zeroMsg_ne : ("File cannot contain byte zero" == mismatchMsg) = false := by decide
 
 theorem nextLoop_sound {σ} [DecidableEq σ] (env : Env) (prog : σ → Prog σ) (inputs : List UInt8)
-    (reachAt : σ → List (List σ × List Ev)) (ht : TableOk prog inputs reachAt) (n : Nat) (s : Sc σ)
+    (reachAt : σ → List (List σ × List Ev × Nat × Bool)) (ht : TableOk prog inputs reachAt) (n : Nat) (s : Sc σ)
     (hg : Good env reachAt s) : ResOk env reachAt (nextLoop env prog n s) := by
   induction n generalizing s with
   | zero => simp [nextLoop, ResOk, StackFault]
@@ -496,12 +597,12 @@ theorem nextLoop_sound {σ} [DecidableEq σ] (env : Env) (prog : σ → Prog σ)
           · exact h
           · exact absurd hbig hgt
         obtain ⟨a, ha, hc⟩ := hlive
-        obtain ⟨⟨eouts, heo, heall⟩, hsucc⟩ := okAt_spec prog inputs reachAt a ht.closed_ ha
+        obtain ⟨⟨eouts, heo, heall⟩, _, hsucc⟩ := okAt_spec prog inputs reachAt a ht.closed_ ha
         have hst : s.step = a.st := hc.1
-        have hcc : ConcC s.cur a.norm s := ⟨hc, fun _ => rfl⟩
+        have hcc : ConcC ⟨s.cur, s.finds.length, a.lag, a.fresh⟩ a.norm s := concC_start a s hc
         -- what follows a safe byte step
         have after : ∀ (s1 : Sc σ) (a' : Abs σ), Conc a' s1 →
-            (memR reachAt a' = true ∨ s1.cur + 1 > env.size) →
+            (memR reachAt a'.next = true ∨ s1.cur + 1 > env.size) →
             ResOk env reachAt
               (match drain ({ s1 with cur := s1.cur + 1 } : Sc σ).finds.length { s1 with cur := s1.cur + 1 } with
                | .error f => .error f
@@ -509,11 +610,11 @@ theorem nextLoop_sound {σ} [DecidableEq σ] (env : Env) (prog : σ → Prog σ)
                | .ok (none, s3) => nextLoop env prog n s3) := by
           intro s1 a' hc1 hor
           have hc2 : Conc a' ({ s1 with cur := s1.cur + 1 } : Sc σ) := hc1
-          obtain ⟨lex, s3, hd, hc3, hcur3⟩ := drain_sound a' _ _ (Nat.le_refl _) hc2
+          obtain ⟨lex, s3, hd, hc3, hcur3, _⟩ := drain_sound a' _ _ (Nat.le_refl _) hc2
           rw [hd]
           have hg3 : Good env reachAt s3 := by
             rcases hor with hm | hp
-            · exact Or.inl ⟨a', hm, hc3⟩
+            · exact Or.inl ⟨a'.next, hm, hc3⟩
             · exact Or.inr ⟨by rw [hcur3]; exact hp, a', hc3⟩
           cases lex with
           | some l => exact hg3
@@ -521,12 +622,12 @@ theorem nextLoop_sound {σ} [DecidableEq σ] (env : Env) (prog : σ → Prog σ)
         by_cases hend : (s.cur == (env.size : Int)) = true
         · -- end of file: the pseudo byte 0
           simp only [hend, if_true, Bool.not_true, Bool.false_and, Bool.false_eq_true, if_false]
-          have hs := stepFuel_sound env prog 0 s.cur chainFuel s.step a.norm s eouts hcc (by rw [hst]; exact heo)
+          have hs := stepFuel_sound env prog 0 ⟨s.cur, s.finds.length, a.lag, a.fresh⟩ chainFuel s.step a.norm s eouts hcc (by rw [hst]; exact heo)
           revert hs
           cases stepFuel env prog 0 chainFuel s.step s with
           | error f => exact id
           | ok s1 =>
-            rintro ⟨a', ha', hc', hcur'⟩
+            rintro ⟨a', ha', hc', hcur', _⟩
             refine after s1 a' hc' ?_
             rcases heall a' ha' with hmv | hm
             · right
@@ -545,7 +646,7 @@ theorem nextLoop_sound {σ} [DecidableEq σ] (env : Env) (prog : σ → Prog σ)
             obtain ⟨r, hr, hagn⟩ := ht.rep c hc0
             rw [stepFuel_agnostic env prog c r hagn chainFuel s.step s]
             obtain ⟨outs, houts, hall⟩ := hsucc r hr
-            have hs := stepFuel_sound env prog r s.cur chainFuel s.step a.norm s outs hcc (by rw [hst]; exact houts)
+            have hs := stepFuel_sound env prog r ⟨s.cur, s.finds.length, a.lag, a.fresh⟩ chainFuel s.step a.norm s outs hcc (by rw [hst]; exact houts)
             revert hs
             cases stepFuel env prog r chainFuel s.step s with
             | error f => exact id
@@ -554,7 +655,7 @@ theorem nextLoop_sound {σ} [DecidableEq σ] (env : Env) (prog : σ → Prog σ)
               exact after s1 a' hc' (Or.inl (hall a' ha'))
 
 theorem next_sound {σ} [DecidableEq σ] (env : Env) (prog : σ → Prog σ) (inputs : List UInt8)
-    (reachAt : σ → List (List σ × List Ev)) (ht : TableOk prog inputs reachAt) (fuel : Nat) (s : Sc σ)
+    (reachAt : σ → List (List σ × List Ev × Nat × Bool)) (ht : TableOk prog inputs reachAt) (fuel : Nat) (s : Sc σ)
     (hg : Good env reachAt s) : ResOk env reachAt (next env prog fuel s) := by
   unfold next
   cases hfs : s.finds with
@@ -579,7 +680,7 @@ theorem next_sound {σ} [DecidableEq σ] (env : Env) (prog : σ → Prog σ) (in
 
 /-- how a whole scan ends -/
 theorem scanFrom_sound {σ} [DecidableEq σ] (env : Env) (prog : σ → Prog σ) (inputs : List UInt8)
-    (reachAt : σ → List (List σ × List Ev)) (ht : TableOk prog inputs reachAt) (fuel n : Nat) (s : Sc σ)
+    (reachAt : σ → List (List σ × List Ev × Nat × Bool)) (ht : TableOk prog inputs reachAt) (fuel n : Nat) (s : Sc σ)
     (acc : List Lexeme) (hg : Good env reachAt s) :
     ∀ f, (scanFrom env prog fuel n s acc).2.1 = .fault f → ¬ StackFault f := by
   induction n generalizing s acc with
@@ -598,8 +699,8 @@ theorem scanFrom_sound {σ} [DecidableEq σ] (env : Env) (prog : σ → Prog σ)
       | some l => intro hf hn; exact ih s' (l :: acc) hn f hf
 
 /-- the initial state is covered as soon as the reach set has the root entry -/
-theorem good_init {σ} [DecidableEq σ] (env : Env) (reachAt : σ → List (List σ × List Ev)) (root : σ)
-    (h : (reachAt root).contains ([], []) = true) : Good env reachAt (Sc.init root) :=
-  Or.inl ⟨⟨root, [], [], false⟩, h, rfl, ⟨[], rfl⟩, rfl⟩
+theorem good_init {σ} [DecidableEq σ] (env : Env) (reachAt : σ → List (List σ × List Ev × Nat × Bool)) (root : σ)
+    (h : (reachAt root).contains ([], [], 0, true) = true) : Good env reachAt (Sc.init root) :=
+  Or.inl ⟨{ st := root, stk := [], evk := [] }, h, rfl, ⟨[], rfl⟩, rfl⟩
 
 end JsightVerif.Model
